@@ -261,7 +261,8 @@ def make_ss_tcp_job(N, kind, mode, tier, nseg=1):
 
     def job(ctx):
         from . import decoders
-        K = K_of(tier) - (0 if legacy else 1)
+        # legacy: three chunks also in the quick tier (a skipped middle chunk needs one before and one after it)
+        K = 3 if legacy else K_of(tier) - 1
         case = decoders.ss_tcp_cases(ctx.prog, [(N, kind, mode, False, False)])[0]
         ex = base_exec(ctx, N, 2 * K + 4)
         case.setup(ex)
